@@ -462,4 +462,29 @@ theorem get_of_view (W : World α) (slot : Nat) (wv w : List α) (h : W.view slo
 
 end Step
 
+/-! ### list facts behind `C01.clone_no_recompute` -/
+
+section Reclone
+variable {α : Type}
+
+theorem zipWith_div_mul [Mul α] [Div α] (xs ws : List α) :
+    List.zipWith (· * ·) (List.zipWith (· / ·) xs ws) ws = List.zipWith (fun x w => x / w * w) xs ws := by
+  induction xs generalizing ws with
+  | nil => simp
+  | cons x xs ih => cases ws with
+    | nil => simp
+    | cons w ws => simp [ih]
+
+theorem zipWith_eq_left_iff {β : Type} (g : α → β → α) (xs : List α) (ws : List β) (hl : xs.length = ws.length) :
+    List.zipWith g xs ws = xs ↔ ∀ p ∈ List.zip xs ws, g p.1 p.2 = p.1 := by
+  induction xs generalizing ws with
+  | nil => simp
+  | cons x xs ih => cases ws with
+    | nil => simp at hl
+    | cons w ws =>
+      have hl' : xs.length = ws.length := by simpa using hl
+      simp [ih ws hl']
+
+end Reclone
+
 end C01
